@@ -1,0 +1,14 @@
+//go:build verif
+
+// Contracts for gzv (contract-based deductive verification, /verif). Comment-only file.
+package httpx
+
+// C08 / C09 path parameters: EVERY variable the router bound (empty ones included - the root counts as one empty segment) is
+// handed to the path unmarshaller, and the unmarshaller always runs - also when nothing was bound, so that required fields are
+// demanded and defaults filled
+//@ func ParsePath
+//@   property C08 C09
+//@   ghost at entry: um = false
+//@   ghost at after Unmarshal#0: um = true
+//@   loop 0: invariant m != nil && forall(s.(string), implies(seen[s], inDom(m, s)))
+//@   ensures_local um
